@@ -70,6 +70,7 @@ func handleRandWalk(raw []byte) interface{} {
 			return
 		}
 		env.DiskCheck = true
+		env.LeakCheck = os.Getenv("VERIF_LEAK") != ""
 		for i := 0; i < t.Len && !env.Dead && len(env.Viol) == 0; i++ {
 			if len(res.Path) > 0 {
 				hookC14(env, res.Path[len(res.Path)-1])
@@ -171,6 +172,7 @@ func minimizeDoc(raw json.RawMessage) []string {
 				return
 			}
 			env.DiskCheck = true
+			env.LeakCheck = os.Getenv("VERIF_LEAK") != ""
 			for _, op := range path {
 				if env.Dead || len(env.Viol) > 0 {
 					return
